@@ -244,3 +244,20 @@ PROPS["C13"] = {
             "Non-trivial = accepted by the encoder; distinct by (symbology, parameters, content).",
     "assumptions": COMMON_ASSUMPTIONS,
 }
+
+PROPS["C09"] = {
+    "technique": "model-based property testing of Scale/ScaleWithFill: every pixel of every result compared with an integer-factor centred pixel model, over rapid-generated sources/sizes/fills/chains and an exhaustive (width,height) window for fixed sources",
+    "level_text": "exploration with an exhaustive size window: sources are real encoder outputs of all families (plain and coloured) and results of earlier scalings; for every requested size the check decides error <=> factor < 1, bounds, every pixel (block grid centred to within one pixel, everything else the fill colour, default fill = source background or white), and equality of Content/Metadata/CheckSum with the source",
+    "level_note": "trusted: the pixel model in the harness (about 40 lines); sources are only real encoder outputs and their scalings (origin (0,0), dimensions 1 or 2), as the statement quantifies over barcodes 'from any encoder'",
+    "parts": [
+        {"name": "regression", "kind": "plain", "test": "TestReplayDir"},
+        {"name": "window", "kind": "plain", "test": "TestC09Window"},
+        {"name": "rapid", "kind": "rapid", "test": "TestC09Rapid", "checks": {"quick": 30000, "thorough": 1000000}},
+    ],
+    "universes": {"source_families": [f"{f} {c}" for f in ("qr", "datamatrix", "aztec", "pdf417", "code128", "code128nc", "code39", "code93", "codabar", "ean", "2of5", "itf") for c in ("plain", "colour")]},
+    "rule": "case = (source encoder call, 1..4 scaling steps); each step requests a size drawn from {1..size, size, k*size+0..3, k*size-1, U(1..3*size+2)} with default or "
+            "random explicit fill colour (Gray/Gray16/RGBA/NRGBA/CMYK); successful steps feed the next one (chains up to 4). window: fixed small sources x every "
+            "(w,h) in 1..3*size+2, each followed by a second scaling. Non-trivial = at least one successful scaling with factor >= 2 or a non-zero margin; "
+            "distinct by the whole case.",
+    "assumptions": COMMON_ASSUMPTIONS + ["requested width and height are >= 1"],
+}
